@@ -34,11 +34,11 @@ CLAIMED = {
     "C18": dict(
         category="proof",
         text=("Proof part: msbar_masses.ker_expanded solves the mass RGE to the working order for generic beta and gamma_m coefficients (all nf) and orders 1-4: leading power (a1/a0)^(gamma0/beta0), "
-              "unit value at equal couplings, and the Taylor coefficients a1^j, j < n, of d ln ker/da1 * a1 beta(a1) - gamma_m(a1) vanish identically; ker_dispatcher hands the couplings at "
+              "unit value at equal couplings, and the Taylor coefficients a1^j, j < n, of d ln ker/da1 * a1 beta(a1) - gamma_m(a1) vanish identically; the logarithms of the mass decoupling across a matching scale are those required by RG invariance (residual of d ln m^(nf+1)/dt + gamma_m^(nf+1)(a') zero through O(a^3) identically in nf and L, the a^3 L^0 term to the printed digits); ker_dispatcher hands the couplings at "
               "xif2 * scale in the requested patch to the kernel of the coupling method. BOUNDED part (deal run-time contracts, never counted as proved): compute() returns sorted masses that are "
               "fixed points m(m) = m in the patch adjoining the threshold on the side of the coupling reference over 48 seeded draws (reference nf 3-6, orders 1-4, exact / expanded, ratios, xif) and "
               "refuses 12 inconsistent inputs with ValueError. One defect repaired by a fix commit (NumPy >= 2: TypeError, no mass could be solved)."),
-        note=COMMON_NOTE + "Not covered: decoupling constants of the running mass and their RG logarithms; convergence of fsolve / quad. The bounded part is listed under evidence.coverage.bounded_parts.",
+        note=COMMON_NOTE + "Not covered: the L-independent decoupling constants (literature values); convergence of fsolve / quad (observation: solve() ignores fsolve's convergence flag). The bounded part is listed under evidence.coverage.bounded_parts.",
         technique="contract-based deductive verification (symbolic execution + exact normal form) for the kernel; bounded stand-in (deal run-time contracts) for the fixed-point clause",
         design_ref="DESIGN.md section 2, C18",
     ),
